@@ -275,7 +275,7 @@ def _pub(flt):
     return {'k': flt['k'], 's': list(flt['s'])}
 
 
-def record(src: str, mode: str, pseed: int, tid: int, heavy_cap: int = 400) -> dict:
+def record(src: str, mode: str, pseed: int, tid: int, heavy_cap: int = 400, light: bool = False) -> dict:
     """One trace: the program's oracle table + every observation. Raises OracleError when the oracle cannot be built."""
     from fst import FST  # the code under test (never `from fst import *`)
 
@@ -329,10 +329,12 @@ def record(src: str, mode: str, pseed: int, tid: int, heavy_cap: int = 400) -> d
     if len(inner) > heavy_cap:
         inner = sorted(rng.sample(inner, heavy_cap))
     for x in inner:
-        for on in ONS:
+        for j, on in enumerate(ONS):
             for back in (False, True):
+                if light and back != bool((x + j) % 2):   # quick tier: three of the six orders per node, alternating
+                    continue
                 do_walk(x, on, back, True, True, FLTS[0], full=(N <= heavy_cap))
-        for _ in range(3):
+        for _ in range(2 if light else 3):
             do_walk(x, rng.choice(ONS), rng.random() < .5, rng.random() < .6, rng.random() < .6, rng.choice(FLTS))
 
     # (3) navigation: every node x filter  (a call that raises is recorded as RAISED)
@@ -357,7 +359,7 @@ def record(src: str, mode: str, pseed: int, tid: int, heavy_cap: int = 400) -> d
         return s
 
     rng_all = range(1, N + 1)
-    for flt in FLTS[:5]:
+    for flt in (FLTS[:3] + [FLTS[3 + pseed % 2]] if light else FLTS[:5]):
         arg = _flt_arg(flt, rng)
         fs = [None] + [lv.fst(x) for x in rng_all]
         it = {'call': 'nav', 'flt': _pub(flt)}
@@ -422,104 +424,6 @@ def record(src: str, mode: str, pseed: int, tid: int, heavy_cap: int = 400) -> d
                 p = _safe(fs[anc].child_path, fs[x])
                 it['rel'].append({'a': anc, 'x': x, 'p': pub_path(p),
                                   'b': RAISED if p is _Raised else C(fs[anc].child_from_path, p)})
-            anc, d = o.par[anc - 1], d + 1
-    items.append(it)
-
-    return dict(o.table(), id=tid, items=items)
-
-    # (1) walks from the root: every parameter combination x every filter kind
-    for flt in FLTS:
-        for on in ONS:
-            for back in (False, True):
-                for rec in (True, False):
-                    for self_ in (True, False):
-                        do_walk(1, on, back, rec, self_, flt, full=(flt['k'] == 'T' and rec and self_))
-
-    # (2) walks from every inner node (sampled above heavy_cap): all six orders unfiltered + random combinations
-    inner = list(range(2, N + 1))
-    if len(inner) > heavy_cap:
-        inner = sorted(rng.sample(inner, heavy_cap))
-    for x in inner:
-        for on in ONS:
-            for back in (False, True):
-                do_walk(x, on, back, True, True, FLTS[0], full=(N <= heavy_cap))
-        for _ in range(3):
-            do_walk(x, rng.choice(ONS), rng.random() < .5, rng.random() < .6, rng.random() < .6, rng.choice(FLTS))
-
-    # (3) navigation: every node x filter
-    for flt in FLTS[:5]:
-        arg = _flt_arg(flt, rng)
-        fs = [None] + [lv.fst(x) for x in range(1, N + 1)]
-        it = {'call': 'nav', 'flt': _pub(flt)}
-        it['w'] = [nid(y) for y in froot.walk(arg)]
-        it['wb'] = [nid(y) for y in froot.walk(arg, back=True)]
-        it['next'] = [nid(fs[x].next(arg)) for x in range(1, N + 1)]
-        it['prev'] = [nid(fs[x].prev(arg)) for x in range(1, N + 1)]
-        it['first'] = [nid(fs[x].first_child(arg)) for x in range(1, N + 1)]
-        it['last'] = [nid(fs[x].last_child(arg)) for x in range(1, N + 1)]
-        nchild, pchild, cw, cwb = [], [], [], []
-        for x in range(1, N + 1):
-            f = fs[x]
-            s, c = [], None
-            while (c := f.next_child(c, arg)) is not None and len(s) <= N:
-                s.append(nid(c))
-            nchild.append(s)
-            s, c = [], None
-            while (c := f.prev_child(c, arg)) is not None and len(s) <= N:
-                s.append(nid(c))
-            pchild.append(s)
-            cw.append([nid(y) for y in f.walk(arg, self_=False, recurse=False)])
-            cwb.append([nid(y) for y in f.walk(arg, self_=False, recurse=False, back=True)])
-        it.update(nchild=nchild, pchild=pchild, cw=cw, cwb=cwb)
-        it['nc1'] = [0] + [nid(fs[o.par[x - 1]].next_child(fs[x], arg)) for x in range(2, N + 1)]
-        it['pc1'] = [0] + [nid(fs[o.par[x - 1]].prev_child(fs[x], arg)) for x in range(2, N + 1)]
-        it['sf'] = [nid(fs[x].step_fwd(arg)) for x in range(1, N + 1)]
-        it['sfn'] = [nid(fs[x].step_fwd(arg, False)) for x in range(1, N + 1)]
-        it['sb'] = [nid(fs[x].step_back(arg)) for x in range(1, N + 1)]
-        it['sbn'] = [nid(fs[x].step_back(arg, False)) for x in range(1, N + 1)]
-        tops = []
-        for x in (inner if len(inner) <= 60 else sorted(rng.sample(inner, 60))) + [1]:
-            f = fs[x]
-            s, c = [], f
-            while (c := c.step_fwd(arg, top=f)) is not None and len(s) <= N:
-                s.append(nid(c))
-            sb_, c = [], f
-            while (c := c.step_back(arg, top=f)) is not None and len(sb_) <= N:
-                sb_.append(nid(c))
-            tops.append({'x': x, 'it': s, 'itb': sb_,
-                         'wx': [nid(y) for y in f.walk(arg, self_=False)],
-                         'wxb': [nid(y) for y in f.walk(arg, self_=False, back=True)]})
-        it['tops'] = tops
-        items.append(it)
-
-    # (4) paths
-    fs = [None] + [lv.fst(x) for x in range(1, N + 1)]
-    it = {'call': 'path', 'paths': [], 'strs': [], 'back': [], 'backs': [], 'beyond': [], 'rel': []}
-    for x in range(1, N + 1):
-        p = froot.child_path(fs[x])
-        it['paths'].append([{'f': af.name, 'i': -1 if af.idx is None else af.idx} for af in p])
-        it['back'].append(nid(froot.child_from_path(p)))
-        s = froot.child_path(fs[x], as_str=True)
-        it['strs'].append(s)
-        it['backs'].append(nid(froot.child_from_path(s)))
-    from fst.common import astfield  # constructor of path elements (public type of child_path's result)
-    for x in range(1, N + 1):
-        # a path that denotes no node: one index past the end of every list field / a missing optional field
-        a = o.objs[x]
-        for name in a._fields:
-            v = getattr(a, name, None)
-            if isinstance(v, list) and (not v or isinstance(v[0], AST)) and rng.random() < .5:
-                p = froot.child_path(fs[x]) + [astfield(name, len(v))]
-                it['beyond'].append({'p': it['paths'][x - 1] + [{'f': name, 'i': len(v)}],
-                                     'r': nid(froot.child_from_path(p))})
-        # relative paths from an ancestor
-        anc, d = o.par[x - 1], 0
-        while anc and d < 2:
-            if rng.random() < .5:
-                p = fs[anc].child_path(fs[x])
-                it['rel'].append({'a': anc, 'x': x,
-                                  'p': [{'f': af.name, 'i': -1 if af.idx is None else af.idx} for af in p],
-                                  'b': nid(fs[anc].child_from_path(p))})
             anc, d = o.par[anc - 1], d + 1
     items.append(it)
 
